@@ -291,8 +291,6 @@ def run(chk):
     rich += ('#[typeshare]\n#[serde(tag = "t", content = "c")]\npub enum UsesChains { A(Top0), B(Over1), C(Mid2), D(Base3), E(Over3), F { x: Top2, y: Vec<Over0> } }\n')
     for lang in common.LANGS:
         for mode in ("single", "multi"):
-            if lang == "go" and mode == "multi":
-                continue
             d = os.path.join(work, f"rich_{lang}_{mode}")
             cli.make_tree(os.path.join(d, "src_root"), {"rich/src/lib.rs": rich + "#[typeshare]\npub struct Stamp { pub at: DateTime<Utc>, pub id: AccountId }\n"})
             # a configuration file with every file-only table filled in, several entries each; mapping keys that differ only in a
